@@ -5,12 +5,15 @@
    AddReference calls and of Release calls seen by the fake directive instance. *)
 From Bifrost Require Import Lib.Base HoldOpen.Model.
 
-Inductive haction := Do (a : action) | Yield.
+(* Mark: a scheduling marker of the gated scripts (hold / begin / open the
+   AddReference gate); it is not a step of the handler *)
+Inductive haction := Do (a : action) | Yield | Mark.
 
 Definition exec_h (s : state) (h : haction) : state :=
   match h with
   | Do a => code_step s a
   | Yield => fold_left code_step (drain_actions s) s
+  | Mark => s
   end.
 
 Fixpoint trace (s : state) (hs : list haction) : list nat * list nat :=
@@ -22,10 +25,27 @@ Fixpoint trace (s : state) (hs : list haction) : list nat * list nat :=
   end.
 
 (* acq / rel: the two counters after every action (two flat lists keep the case files cheap to parse) *)
-Inductive c33_case := HO (acts : list haction) (acq rel : list nat).
+(* outstanding strong references after every Yield *)
+Fixpoint lives (s : state) (hs : list haction) : list nat :=
+  match hs with
+  | [] => []
+  | h :: rest =>
+      let s' := exec_h s h in
+      match h with Yield => live s' :: lives s' rest | _ => lives s' rest end
+  end.
+
+(* HO: counters after every action.  HOG: gated scripts, in which the harness
+   holds AddReference calls in flight so that the interleaving inside the
+   window is not the one of the list; only the outstanding count at the
+   quiescent points (which c33_quiescent_exact shows to be independent of the
+   interleaving) is compared. *)
+Inductive c33_case :=
+| HO (acts : list haction) (acq rel : list nat)
+| HOG (acts : list haction) (live_at_yields : list nat).
 
 Definition c33_agree (c : c33_case) : bool :=
   match c with
   | HO acts acq rel =>
       let (a, r) := trace init acts in list_eqb Nat.eqb a acq && list_eqb Nat.eqb r rel
+  | HOG acts ls => list_eqb Nat.eqb (lives init acts) ls
   end.
